@@ -217,7 +217,8 @@ fn main() {
         "histories = CORE* . FULL over keys {a, a/b, c}: every history up to `exhaustive_depth` mutations is executed; \
          beyond it, one representative history per distinct state (reference content + token-chain shape) is extended, up to `dedup_depth`; \
          each history runs on a fresh wrapper + fresh InMemory reference, then the read battery runs on the warm and on a cold wrapper instance; \
-         distinct = (wrapper config, resulting state, last op shape, its result class)",
+         distinct = (wrapper config, resulting state, last op shape, its result class); \
+         three reference behaviours are normalised and counted in `tolerated_deviations` instead of compared: delete of a missing key (wrapper NotFound, InMemory Ok; store-dependent per object_store docs), self-rename with Overwrite (InMemory's default copy+delete destroys the object; modelled as no change) and Update without e_tag on a present key (InMemory Generic, wrapper Precondition; both reject)",
     );
     run.assume("object_store::memory::InMemory 0.14.1 is the reference semantics, except: delete of a missing key (store-dependent per object_store docs), its self-rename (destroys the object) and the error variant it uses for an Update without e_tag");
     run.assume("tokens are compared by role (latest / stale / other key's / fabricated), never by value; date conditions are built per store from that store's own reported last_modified");
